@@ -59,6 +59,7 @@ type Obligation struct {
 	Pos   token.Pos
 	Fn    string
 	Extra []string // extra script lines (assumptions specific to this obligation)
+	Groups []string // loop-invariant groups switched on for this obligation
 }
 
 type retInfo struct {
@@ -107,6 +108,13 @@ type Exec struct {
 	rebinds map[ssa.Value][]rebind
 	inlines int
 	loopKs  []Term // iteration indices of the loops of this activation (instantiation points)
+	concatLens []Term // lengths of the left operands of append(xs, ys...) with a symbolic ys
+	existsInvMemo int // 0 unknown, 1 no, 2 yes
+	reinst    bool   // an assumed invariant is being re-instantiated (its witnesses are not registered again)
+	witGroup  map[Term]string // group of the invariant a named witness comes from ("" = ungrouped)
+	curGroup  string          // group of the invariant being assumed
+	goalGroups []string       // groups switched on for the goal being translated
+	assumeWit []Term // named witnesses of existentials in assumed loop invariants (instantiation points, candidate witnesses)
 	depth   int
 	invRecords []invRecord
 	extraInst  []Term
@@ -616,6 +624,14 @@ func (e *Exec) run(params []Term) {
 	if e.loops.irreducible {
 		e.unsupported("irreducible control flow in " + fn.String())
 		return
+	}
+	if ct := e.w.contractOf(fn); ct != nil && e.parent == nil {
+		for n := range ct.loops {
+			if n < 1 || n > len(e.loops.loops) {
+				e.unsupported(fmt.Sprintf("the contract names loop %d, the function has %d loops", n, len(e.loops.loops)))
+				return
+			}
+		}
 	}
 	for i, p := range fn.Params {
 		var t Term
